@@ -216,9 +216,21 @@ func (a *Act) instr(st *State, ins ssa.Instruction) {
 		a.call(st, x, x.Common())
 	case *ssa.Defer:
 		if !isMutexDefer(x) {
-			fail("defer is outside the supported subset")
+			for _, li := range a.loops {
+				if li.blocks[x.Block()] {
+					fail("defer inside a loop is outside the supported subset")
+				}
+			}
+			st.defers = append(st.defers, x)
 		}
 	case *ssa.RunDefers:
+		// deferred calls run in reverse order of registration; their arguments are SSA values fixed at
+		// the defer statement
+		ds := st.defers
+		st.defers = nil
+		for i := len(ds) - 1; i >= 0; i-- {
+			a.doCall(st, &ds[i].Call, ds[i].Pos(), nil)
+		}
 	case *ssa.Go, *ssa.Send, *ssa.Select, *ssa.MakeChan:
 		fail("%T is outside the supported subset (concurrency)", ins)
 	default:
@@ -383,6 +395,7 @@ func (a *Act) convert(st *State, x *ssa.Convert) {
 		if to == "Slice" {
 			r := st.newRef()
 			a.u.Fact(eq(c, app("mkslice", r, "0", app("str_len", v), app("str_len", v))))
+			a.u.Fact(eq(app(d.Fun("str_of_bytes", []string{"Slice"}, "Str"), c), v))
 		} else {
 			a.u.Fact(eq(app("str_len", c), app("slen", v)))
 		}
@@ -410,6 +423,10 @@ func (a *Act) typeAssert(st *State, x *ssa.TypeAssert) {
 			val = app("iptr", v)
 		} else {
 			val = a.load(st, app("iptr", v), x.AssertedType)
+			// the boxed value satisfies the type invariants of the values the code loads (slices well formed, references allocated)
+			if c := st.allocated(val, x.AssertedType); c != "true" {
+				st.assume(implies(ok, c))
+			}
 		}
 		val = ite(ok, val, d.Zero(x.AssertedType))
 	}
